@@ -298,12 +298,15 @@ theorem stepSignOk_spec (isUp : Bool) (iv : InductionVariable)
 /-- MAIN: whenever the stored trip count evaluates to a number at given argument values, the body
     of the loop `for i := start; i cmp limit; i += step` executes exactly that many times.
     For `!=` loops the loop must terminate (on unbounded integers; a `!=` loop that steps past its
-    limit runs until the variable wraps around, which the property's quantifier excludes). -/
-theorem C12_trip_count_sound (isNEQ isUp isInc : Bool) (iv : InductionVariable) (limit tc : SCEV)
+    limit runs until the variable wraps around, which the property's quantifier excludes).
+    `t` is the flag word of the counter's type: the gate `tripCountMayWrap t …` only turns more
+    results into "unknown"; the statement on the type itself is in Props/C12Wrap.lean. -/
+theorem C12_trip_count_sound (t : TFlags) (isNEQ isUp isInc : Bool) (iv : InductionVariable)
+    (limit tc : SCEV)
     (env : Val → Option Int) (s d L n : Int)
     (hs : iv.start.eval env = some s) (hd : iv.step.eval env = some d)
     (hL : limit.eval env = some L)
-    (hdec : decideTripCount isNEQ isUp isInc iv limit = some tc)
+    (hdec : decideTripCount t isNEQ isUp isInc iv limit = some tc)
     (hn : tc.eval env = some n)
     (hterm : isNEQ = true → ∃ m, (Counted.mk s d L .ne).runs m) :
     0 ≤ n ∧ (Counted.mk s d L (cmpOfFlags isUp isInc isNEQ)).runs n.toNat := by
@@ -335,7 +338,8 @@ theorem C12_trip_count_sound (isNEQ isUp isInc : Bool) (iv : InductionVariable) 
     simp only at hdec
     cases isNEQ with
     | false =>
-      split_ifs at hdec with hss
+      split_ifs at hdec with hss hwrap
+      · cases hdec; simp [SCEV.eval] at hn
       · cases hdec; simp [SCEV.eval] at hn
       · simp only [Bool.not_eq_true, Bool.not_eq_false'] at hss
         obtain ⟨dc, hdc', hup, hdown⟩ := stepSignOk_spec isUp iv (by simpa using hss)
@@ -378,6 +382,9 @@ theorem C12_trip_count_sound (isNEQ isUp isInc : Bool) (iv : InductionVariable) 
       rw [hcmp]
       simp only [stepSignOk, if_true, Bool.not_true, Bool.false_eq_true, if_false,
         tripCountFormula] at hdec
+      by_cases hwrap : tripCountMayWrap t true isUp isInc iv limit = true
+      · rw [if_pos hwrap] at hdec; cases hdec; simp [SCEV.eval] at hn
+      rw [if_neg hwrap] at hdec
       cases hde : iv.step.evalNil with
       | none => simp [hde] at hdec
       | some dc =>
@@ -423,7 +430,7 @@ theorem C12_inclusive_equal_bounds_fixed :
     (Counted.mk 0 1 0 .le).runs 1 ∧
     ¬ (Counted.mk 0 1 0 .le).runs 0 ∧
     ∀ env : Val → Option Int,
-      (decideTripCount false true true iv limit).bind (SCEV.eval env) = some 1 := by
+      (decideTripCount 257 false true true iv limit).bind (SCEV.eval env) = some 1 := by
   refine ⟨rfl, ⟨?_, by decide⟩, ?_, fun env => rfl⟩
   · intro k hk
     obtain rfl : k = 0 := by omega
@@ -470,7 +477,7 @@ theorem C12_formula_needs_step_sign :
     let env : Val → Option Int := fun v => if v = .param 1 then some 0 else none
     (tripCountFormula false true false iv limit).bind (SCEV.eval env) = some 1 ∧
     (Counted.mk 2 (-5) 0 .lt).runs 0 ∧
-    decideTripCount false true false iv limit = some (.unknown none false) := by
+    decideTripCount 257 false true false iv limit = some (.unknown none false) := by
   refine ⟨?_, ?_, ?_⟩
   · decide
   · exact ⟨fun k hk => absurd hk (Nat.not_lt_zero k), by decide⟩
@@ -481,7 +488,7 @@ example :
     let iv : InductionVariable := ⟨0, .basic, .unknown (some (.param 0)) true, .const 3⟩
     let limit := SCEV.unknown (some (.param 1)) true
     let env : Val → Option Int := fun v => if v = .param 0 then some 1 else if v = .param 1 then some 10 else none
-    ((decideTripCount false true false iv limit).bind (SCEV.eval env) = some 3) ∧
+    ((decideTripCount 257 false true false iv limit).bind (SCEV.eval env) = some 3) ∧
     (Counted.mk 1 3 10 .lt).bodyCount 10 0 = some 3 := by
   refine ⟨?_, ?_⟩
   · decide
